@@ -334,6 +334,18 @@ func (f *anteFixture) runAnteCell(c AnteCell) (*Failure, string, bool) {
 		if (resp.Code == 0) != admitted {
 			return failf("admission", admissionSig(admitted, urlsInTx, mode), "%s: CheckTx code=%d log=%q, predicate says admitted=%v", desc, resp.Code, resp.Log, admitted), label, admitted
 		}
+		// a transaction admitted with timeout == this height goes stale if the node only proposes later
+		stale := admitted && c.Timeout%4 == 2
+		if stale {
+			if _, err := f.sim.Exec(blk, ethTxs, false); err != nil {
+				return failf("block-processing", "block-failed", "%v", err), label, admitted
+			}
+			blk, ethTxs, err = f.sim.Begin(world.StepOpts{DT: 5 * time.Second, Proposer: -1})
+			if err != nil {
+				return failf("fixture", "begin-failed", "%v", err), label, admitted
+			}
+			label += "/stale"
+		}
 		// the node holds validator key 0; only then can it build a proposal
 		if string(blk.Proposer) == string(world.NewAccount(world.DomValidator, 0).Addr()) {
 			pr, err := n.Prepare(blk.PrepareReq(nil))
@@ -346,8 +358,12 @@ func (f *anteFixture) runAnteCell(c AnteCell) (*Failure, string, bool) {
 					included = true
 				}
 			}
-			if included && !admitted {
-				return failf("admission", admissionSig(admitted, urlsInTx, mode), "%s: an inadmissible transaction was put into a proposal", desc), label, admitted
+			if included && (!admitted || stale) {
+				sig := admissionSig(false, urlsInTx, mode)
+				if stale {
+					sig = "expired-transaction-proposed/prepare"
+				}
+				return failf("admission", sig, "%s: an inadmissible (stale=%v) transaction was put into a proposal at height %d", desc, stale, blk.Height), label, admitted
 			}
 			if len(pr.Txs) > 0 {
 				if _, m, _ := decodeEthBlockTx(n, pr.Txs[0]); m == nil {
